@@ -24,6 +24,10 @@ import SpsdkVerif.Proofs.DbCacheSpec
 import SpsdkVerif.Proofs.DbCacheInv
 import SpsdkVerif.Proofs.DbCacheSeq
 import SpsdkVerif.Proofs.DbCacheCodec
+import SpsdkVerif.Proofs.DbCacheFatal
+import SpsdkVerif.Proofs.DbCacheProgram
+import SpsdkVerif.Generated.CachePrograms
+import SpsdkVerif.Proofs.DbCacheListingSem
 
 namespace SpsdkVerif.C18
 open SpsdkVerif SpsdkVerif.DbCache
@@ -49,12 +53,12 @@ theorem caught_covers :
 
 /-- Table obligation over EVERY lexical file operation in the functions that (un)pickle a cache:
     writes are inside the lock and inside a `try` that catches `OSError`; reads/removes tolerate a
-    file that vanished; loads are inside the lock and catch every measured class. -/
+    file that vanished; loads catch every measured class.  (Not required: the lock around a load.) -/
 def siteOK (s : CacheSite) : Bool :=
   (if s.op == "open_w" || s.op == "dump" || s.op == "replace" then s.inLock && Exc.caughtBy s.caught .OSError else true) &&
   (if s.op == "makedirs" then Exc.caughtBy s.caught .OSError else true) &&
   (if s.op == "open_r" || s.op == "remove" then Exc.caughtBy s.caught .FileNotFoundError else true) &&
-  (if s.op == "load" then s.inLock && measuredPrefixExcs.all (Exc.caughtBy s.caught) else true)
+  (if s.op == "load" then measuredPrefixExcs.all (Exc.caughtBy s.caught) else true)
 
 theorem sites_guarded : Generated.CacheGuards.sites.all siteOK = true := by decide
 
@@ -62,6 +66,40 @@ theorem sites_guarded : Generated.CacheGuards.sites.all siteOK = true := by deci
 theorem shapes :
     quickG.w.mergesExisting = false ∧ configG.w.mergesExisting = true ∧
     quickG.l.removeStale = false ∧ configG.l.removeStale = true ∧ configG.l.handlerRemoves = true := by decide
+
+/-- **The program text is the model's.**  The ordered listing of cache actions that the generator reads from the
+    three functions (action, lock scope, enclosing branches, handler classes of the enclosing `try`s, in source order)
+    equals the canonical text of the model's action programs instantiated with the generated guards
+    (`Proofs/DbCacheProgram.lean`).  A reordered / added / dropped action, or one moved out of its lock, `try` or
+    branch, breaks this even when no guard flag changes. -/
+theorem program_text_canonical :
+    Generated.CachePrograms.quickProgram = Program.quick quickG ∧
+    Generated.CachePrograms.configLoaderProgram = Program.configLoader configG.l ∧
+    Generated.CachePrograms.configWriterProgram = Program.configWriter configG.w := by decide
+
+/-- **The regenerated program means what the model does.**  The generated listings, executed by the generic listing
+    semantics of `Proofs/DbCacheListingSem.lean` (items in source order; branch conditions and handlers activated
+    dynamically; each action with its obvious effect — no reference to `pstep` or to the guard flags), and the model
+    (`pstep` with the generated guards, run to completion) produce the same sequence of observable actions, the same final
+    cache file, the same answers and the same fatal/non-fatal outcome — for one process started on every class of
+    initial file (missing, empty, truncated, valid, stale, wrong type, garbage) and several query lists.  Kernel-evaluated
+    on every run on the listings of the CURRENT source. -/
+theorem listing_semantics_agree :
+    (ListingSem.initialFiles [0]).all (fun f =>
+      ListingSem.runQuick ListingSem.env0 Generated.CachePrograms.quickProgram f
+        == ListingSem.modelOutcome ListingSem.env0 quickG f [0]) = true ∧
+    (ListingSem.initialFiles [1, 2]).all (fun f => [[1], [1, 2], [3, 1], []].all fun qs =>
+      ListingSem.runConfig ListingSem.env0 Generated.CachePrograms.configLoaderProgram
+          Generated.CachePrograms.configWriterProgram f qs
+        == ListingSem.modelOutcome ListingSem.env0 configG f qs) = true := by
+  constructor <;> decide +kernel
+
+/-- … and the comparison is not vacuous: e.g. on the stale config cache the common run removes the file, stores twice. -/
+example : (ListingSem.runConfig ListingSem.env0 Generated.CachePrograms.configLoaderProgram
+      Generated.CachePrograms.configWriterProgram
+      (some (ListingSem.env0.pickle { ty := 1, fp := 0, ents := [(1, 0)] })) [3, 1]).trace =
+    ["exists", "acquire", "open_r", "load", "release", "remove", "acquire", "exists", "open_w", "dump", "release",
+     "acquire", "exists", "open_r", "load", "open_w", "dump", "release"] := by decide +kernel
 
 /-! ## Crash states -/
 
@@ -128,32 +166,57 @@ theorem answers_equal_disabled (env : Env) (G : Guards) (hG : G = quickG ∨ G =
 
 /-- **schedule_safe.**  For every number of processes (`queries.length`), every initial harmless cache state
     and EVERY schedule (any interleaving of the processes' atomic actions, any process killed at any point,
-    a kill inside `pickle.dump` leaving any prefix): in every reachable state no process is fatal, every
+    a kill inside `pickle.dump` leaving any prefix; any lock / open / write failing with an I/O error of `ioExcs`,
+    `pickle.dump` failing after any prefix — read-only or full cache folder, lock time-out): in every reachable state no process is fatal, every
     answer given so far is the answer of a load from the data folder, a finished process has answered all
     its queries so, and the cache file is again harmless (so the next start is covered too). -/
 theorem schedule_safe (env : Env) (G : Guards) (hG : G = quickG ∨ G = configG)
     (hP : PickleOK env measuredPrefixExcs) (f0 : Option Bytes) (h0 : FileSafe env G f0)
-    (queries : List (List Nat)) (sched : List Lbl) (s : St)
+    (queries : List (List Nat)) (sched : List Lbl) (hnw : ∀ l ∈ sched, l.isWipe = false) (s : St)
     (hrun : runSched env G (initSt G f0 queries) sched = some s) :
     (∀ p ∈ s.procs, ProcSafe env p) ∧ FileSafe env G s.sh.file ∧ s.procs.map (·.asked) = queries := by
   rcases hG with rfl | rfl
-  · exact sched_inv env quickG measuredPrefixExcs guards_wf.1 hP caught_covers.1 f0 h0 queries sched s hrun
-  · exact sched_inv env configG measuredPrefixExcs guards_wf.2 hP caught_covers.2 f0 h0 queries sched s hrun
+  · exact sched_inv env quickG measuredPrefixExcs guards_wf.1 hP caught_covers.1 f0 h0 queries sched hnw s hrun
+  · exact sched_inv env configG measuredPrefixExcs guards_wf.2 hP caught_covers.2 f0 h0 queries sched hnw s hrun
 
 /-- **schedule_terminates.**  Every schedule is finite (bounded by the initial measure: no livelock), and as
     long as some process is unfinished some process can act (no deadlock on the file lock) — so every maximal
     schedule ends with every process `done` (or killed), and by `schedule_safe` none fatal. -/
 theorem schedule_terminates (env : Env) (G : Guards) (hG : G = quickG ∨ G = configG)
     (hP : PickleOK env measuredPrefixExcs) (f0 : Option Bytes) (h0 : FileSafe env G f0)
-    (queries : List (List Nat)) (sched : List Lbl) (s : St)
+    (queries : List (List Nat)) (sched : List Lbl) (hnw : ∀ l ∈ sched, l.isWipe = false) (s : St)
     (hrun : runSched env G (initSt G f0 queries) sched = some s) :
     sched.length ≤ (initSt G f0 queries).totalMeasure ∧
     ((∃ p ∈ s.procs, p.pc.terminal = false) → ∃ i, (gstep env G s (.run i)).isSome = true) := by
   refine ⟨?_, fun hl => ?_⟩
-  · have := sched_length_le env G _ _ sched hrun; omega
+  · have h := sched_length_le env G _ _ sched hrun
+    have hf : sched.filter (fun l => !l.isWipe) = sched :=
+      List.filter_eq_self.mpr (fun l hl => by simp [hnw l hl])
+    rw [hf] at h; omega
   · rcases hG with rfl | rfl
-    · exact sched_progress env quickG measuredPrefixExcs guards_wf.1 hP caught_covers.1 f0 h0 queries sched s hrun hl
-    · exact sched_progress env configG measuredPrefixExcs guards_wf.2 hP caught_covers.2 f0 h0 queries sched s hrun hl
+    · exact sched_progress env quickG measuredPrefixExcs guards_wf.1 hP caught_covers.1 f0 h0 queries sched hnw s hrun hl
+    · exact sched_progress env configG measuredPrefixExcs guards_wf.2 hP caught_covers.2 f0 h0 queries sched hnw s hrun hl
+
+/-- the generated guards catch every `Exception` (they are `except Exception`) and every raise site is in its `try` -/
+theorem guards_catch_all : CatchAll quickG ∧ CatchAll configG := by
+  refine ⟨⟨fun e he => ?_, ?_⟩, ⟨fun e he => ?_, ?_⟩⟩
+  · simpa [quickG, Generated.CacheGuards.quickLoader, Generated.CacheGuards.quickWriter, Exc.caughtBy] using he
+  · decide
+  · simpa [configG, Generated.CacheGuards.configLoader, Generated.CacheGuards.configWriter, Exc.caughtBy] using he
+  · decide
+
+/-- **never_fatal.**  Whatever is in the cache file (garbage included), whoever removes the cache folder at whatever
+    moment (`wipe`: an SPSDK process running with SPSDK_CACHE_DISABLED `rmtree`s it, breaking the lock of whoever holds
+    it), whichever lock / open / write fails with an I/O error (read-only or full folder, time-out), whoever is
+    killed: no process of any schedule is ever fatal — provided only that `pickle.load` raises nothing but
+    `Exception` subclasses.  (The *answers* under `wipe` are not covered by a theorem: two writers may then share an inode.) -/
+theorem never_fatal_any_schedule (env : Env) (G : Guards) (hG : G = quickG ∨ G = configG)
+    (hR : RaisesOnlyExceptions env) (f0 : Option Bytes) (queries : List (List Nat)) (sched : List Lbl) (s : St)
+    (hrun : runSched env G (initSt G f0 queries) sched = some s) :
+    ∀ p ∈ s.procs, ∀ e, p.pc ≠ .fatal e := by
+  rcases hG with rfl | rfl
+  · exact never_fatal env quickG guards_catch_all.1 hR f0 queries sched s hrun
+  · exact never_fatal env configG guards_catch_all.2 hR f0 queries sched s hrun
 
 /-! ## Non-vacuity -/
 
@@ -167,11 +230,11 @@ example : ∃ env : Env, PickleOK env measuredPrefixExcs ∧ FileSafe env quickG
   · intro b hb
     cases hb
     simpa using crash_state_bytes_harmless Codec.codecEnv quickG Codec.codec_pickleOK caught_covers.1
-      default (by intro _ _ e he; cases he) 0
+      default (by intro _ e he; cases he) 0
   · intro b hb
     cases hb
     simpa using crash_state_bytes_harmless Codec.codecEnv configG Codec.codec_pickleOK caught_covers.2
-      default (by intro _ _ e he; cases he) 0
+      default (by intro _ e he; cases he) 0
 
 example : (initSt quickG (some []) [[0], [0], [0]]).procs.length = 3 := by decide
 
@@ -180,7 +243,7 @@ example (env : Env) : FileSafe env quickG none := by intro b hb; cases hb
 
 /-- a stale object (wrong fingerprint, wrong entries) satisfies `Sound` — the theorems cover it -/
 example : Sound Codec.codecEnv { ty := Codec.codecEnv.expectedTy, fp := Codec.codecEnv.fpOf [7] + 1, ents := [(7, Codec.codecEnv.loadCfg 7 + 1)] } := by
-  intro _ h
+  intro h
   simp [keys] at h
 
 /-- the unrepaired source did NOT satisfy the obligations: its caught tuple misses `EOFError` -/
